@@ -442,6 +442,11 @@ func c06lockedAt(sa *sharedAnalysis, at ssa.Instruction, write bool, depth int) 
 	if h := c06heldAt(at, write); len(h) > 0 {
 		return true, h[0]
 	}
+	if c06onceOnly(sa, at.Parent()) {
+		// the function only ever runs as the argument of sync.Once.Do on a Once that is shared between the requests:
+		// at most one execution, and every Do returns after it (happens-before)
+		return true, "sync.Once.Do (the function runs only inside it)"
+	}
 	if depth > 3 {
 		return false, ""
 	}
@@ -469,6 +474,7 @@ func c06lockedAt(sa *sharedAnalysis, at ssa.Instruction, write bool, depth int) 
 func c06s1(sa *sharedAnalysis, rule string) int {
 	c := sa.c
 	n := 0
+	c06syncWrites = nil
 	var fns []*ssa.Function
 	for f := range sa.reach {
 		fns = append(fns, f)
@@ -525,6 +531,7 @@ func c06s1(sa *sharedAnalysis, rule string) int {
 				return
 			}
 			if ok, l := c06lockedAt(sa, i, true, 0); ok {
+				c06syncWrites = append(c06syncWrites, c06syncWrite{i, ci.sharedStep, l})
 				c.ob(rule, key, i.Pos(), OK, "performed while holding "+l)
 				return
 			}
@@ -541,4 +548,84 @@ func c06sortFns(fns []*ssa.Function) {
 			fns[j], fns[j-1] = fns[j-1], fns[j]
 		}
 	}
+}
+
+// c06syncWrite is one store of the request path into an object shared between requests that S1 accepted because it is
+// synchronised (a lock is held, or it runs inside sync.Once.Do). C06.S9 (c06_round4.go) derives from them the fields
+// whose readers need to synchronise as well. Refilled by every run of c06s1 (one program at a time).
+type c06syncWrite struct {
+	instr ssa.Instruction
+	step  string // "route.Target.accessRules"
+	how   string
+}
+
+var c06syncWrites []c06syncWrite
+
+// c06onceDo: the call runs its function argument under a sync.Once that is not a local of the calling function (a
+// field of a shared object, a package variable, an entry of a shared map): (*sync.Once).Do(f). Returns the argument.
+func c06onceDo(cc *ssa.CallCommon) (ssa.Value, bool) {
+	if cc == nil || cc.IsInvoke() || calleeName(cc) != "(*sync.Once).Do" || len(cc.Args) != 2 {
+		return nil, false
+	}
+	base, _ := c06addrBase(cc.Args[0])
+	if _, isLocal := base.(*ssa.Alloc); isLocal {
+		return nil, false // a Once made for this call orders nothing between requests
+	}
+	return cc.Args[1], true
+}
+
+var c06onceCache struct {
+	sa  *sharedAnalysis
+	fns map[*ssa.Function]bool
+}
+
+// c06onceOnly: f runs only as the function handed to sync.Once.Do: it is such an argument somewhere, nothing calls it
+// directly, and (a closure) its value is used for nothing else.
+func c06onceOnly(sa *sharedAnalysis, f *ssa.Function) bool {
+	if f == nil {
+		return false
+	}
+	if c06onceCache.sa != sa {
+		fns := map[*ssa.Function]bool{}
+		for _, g := range sa.c.AllFns {
+			eachInstr(g, func(i ssa.Instruction) {
+				if arg, ok := c06onceDo(callCommon(i)); ok {
+					for _, h := range funcsOf(arg) {
+						fns[h] = true
+					}
+				}
+			})
+		}
+		c06onceCache.sa, c06onceCache.fns = sa, fns
+	}
+	if !c06onceCache.fns[f] || len(gSites[f]) > 0 {
+		return false
+	}
+	if f.Parent() == nil {
+		// a named function / method handed to Do as a value: nothing may call it by name or through an interface
+		// (call sites of function VALUES of the same signature are not attributed to it)
+		for _, cs := range sa.callers[f] {
+			if cc := callCommon(cs.inst); cc != nil && (cc.IsInvoke() || cc.StaticCallee() != nil) {
+				return false
+			}
+		}
+		return true
+	}
+	// a closure: its value must flow into Once.Do and nowhere else
+	ok := true
+	eachInstr(f.Parent(), func(i ssa.Instruction) {
+		mc, isMC := i.(*ssa.MakeClosure)
+		if !isMC || mc.Fn != f {
+			return
+		}
+		for _, r := range *mc.Referrers() {
+			if _, isDbg := r.(*ssa.DebugRef); isDbg {
+				continue
+			}
+			if arg, isOnce := c06onceDo(callCommon(r)); !isOnce || arg != ssa.Value(mc) {
+				ok = false
+			}
+		}
+	})
+	return ok
 }
